@@ -549,9 +549,29 @@ theorem mkdirP_safe {L} {s : RealState} (hs : Safe L s) (cwd : APath) (p : PureP
   split
   · exact ⟨hs, fun e he => Or.inl he⟩
   · simp only
+    generalize (if p.abs = true then [] else cwd) ++ p.parts = target
     split
     · exact ⟨hs, fun e he => Or.inl he⟩
-    · exact mkdirAll_safe _ (s, none) ⟨hs, fun e he => Or.inl he⟩
+    · split
+      · exact ⟨hs, fun e he => Or.inl he⟩
+      · exact mkdirAll_safe _ (s, none) ⟨hs, fun e he => Or.inl he⟩
+
+theorem isDirRel_lexistsRel {fs : FS} {cwd : APath} {p : PurePath} (h : isDirRel fs cwd p = true) :
+    lexistsRel fs cwd p = true := by
+  unfold isDirRel at h
+  unfold lexistsRel
+  cases hw : walkPath fs cwd p with
+  | error e => simp [hw] at h
+  | ok q =>
+    simp only [hw] at h ⊢
+    unfold isDirAt at h
+    unfold lexists
+    by_cases hq : q = []
+    · simp [hq]
+    · simp only [hq, if_false] at h ⊢
+      cases hf : fs.find q with
+      | none => simp [hf] at h
+      | some e => rfl
 
 /-- `FileMover` without override never loses or overwrites anything either -/
 theorem fileMover_safe {L} {s : RealState} (hs : Safe L s) (cwd : APath) (src dst : PurePath) :
@@ -577,12 +597,11 @@ theorem fileMover_safe {L} {s : RealState} (hs : Safe L s) (cwd : APath) (src ds
             have hg2' : lexistsRel s'.fs cwd dst = false := by simpa using hg2
             unfold shutilMove
             split
-            · -- into an existing directory: guarded by its own existence test
-              simp only
-              split
-              · exact hs'
-              · rename_i hin
-                exact renameRel_safe hs' cwd src _ (fun b hb => find_none_of_not_lexistsRel (by simpa using hin) hb)
+            · -- into an existing directory: impossible, the destination was just seen not to exist
+              rename_i hdir
+              have := isDirRel_lexistsRel hdir
+              rw [hg2'] at this
+              exact absurd this (by decide)
             · exact renameRel_safe hs' cwd src dst (fun b hb => find_none_of_not_lexistsRel hg2' hb)
 
 end Tempren
